@@ -64,6 +64,7 @@ def env():
         assert list(thermo['A'].chemicals.MW) == [float(x) for x in MW]
         fa = thermo['A'].chemicals.formula_array
         rows = [i for i in range(fa.shape[0]) if fa[i].any()]
+        assert sorted(map(tuple, fa[rows, :].tolist())) == sorted(tuple(float(a[r]) for a in ATOMS) for r in range(3))
         _env.update(tmo=tmo, thermo=thermo, formula=fa[rows, :])
     return _env
 
@@ -396,15 +397,156 @@ MIXED_WT = {'phases': [], 'kind': 'system', 'rxns': [dict(r, rebase='wt') for r 
             'parts': [['parallel', [0]], ['single', [1]]], 'post_rebase': [1, 'mol'],
             'material': {'kind': 'stream', 'flows': [4.0, 0.0, 256.0, 0.0, 1.0, 8.0, 0.0, 0.0]}}
 
-CORPUS = [HIST, HIST_SERIES, MIXED, MIXED_WT, window_case(50), window_case(41), window_case(40), window_case(39), window_case(30), window_case(41, two=True),
+# ---------------- deepening round: force_reaction, conversion, nested systems
+HUGE = float(1 << 60)
+def _nonzero(flows):
+    return [0.25 if x == 0 else x for x in flows]
+
+def gen_force_case(rng):
+    """force_reaction on phase-less objects; a third of the cases end with negatives that are negligible against an inert
+    chemical present in huge amount (the branch of remove_negligible_negative_values that masks entries)"""
+    kind = rng.choice(['single', 'single', 'parallel', 'series', 'system'])
+    basis = rng.choice(['mol', 'mol', 'wt'])
+    case = {'phases': [], 'kind': kind, 'entry': 'force'}
+    def rx(): return gen_rxn(rng, [], basis)
+    if kind == 'single': case['rxns'] = [rx()]
+    elif kind in ('parallel', 'series'): case['rxns'] = [rx() for _ in range(rng.randint(1, 3))]
+    else:
+        parts, rxns = [], []
+        for _ in range(rng.randint(1, 2)):
+            k = rng.choice(['single', 'parallel', 'series']); n = 1 if k == 'single' else rng.randint(1, 2)
+            parts.append([k, list(range(len(rxns), len(rxns) + n))]); rxns += [rx() for _ in range(n)]
+        case['rxns'] = rxns; case['parts'] = parts
+    mk = rng.choice(['stream', 'stream', 'numpy', 'sparse', 'massview', 'other'])
+    mat = {'kind': mk}
+    mode = rng.choice(['plain', 'short', 'negligible'])
+    if mk == 'other':
+        pkg = rng.choice(['B', 'D']); mat['pkg'] = pkg
+        layout = list(PKG[pkg])
+    else:
+        layout = list(IDS)
+    flows = _nonzero(gen_feed(rng, case, len(layout), True, layout))
+    used = {t[1] for s_ in case['rxns'] for t in s_['terms']}
+    if mode != 'plain':
+        s0 = case['rxns'][0]
+        s0['X'] = 1.0
+        react = s0['reactant'] or next(t[1] for t in s0['terms'] if t[2] < 0)
+        co = [t for t in s0['terms'] if t[2] < 0 and t[1] != react and t[1] in layout]
+        cr = next((t[2] for t in s0['terms'] if t[1] == react), None)
+        if co and cr and cr < 0 and react in layout:
+            c = rng.choice(co)
+            fr = 4.0
+            flows[layout.index(react)] = fr
+            need = F(fr) * F(c[2]) / F(cr)
+            if basis == 'wt' and s0['basis'] == 'wt':
+                need = need * MWX[react] / MWX[c[1]]      # coefficients are per mass
+            short = F(1, 1 << rng.choice([8, 10, 12]))
+            if need > short: flows[layout.index(c[1])] = float(need - short)
+        if mode == 'negligible':
+            inert = [i for i in layout if i not in used]
+            if inert: flows[layout.index(rng.choice(inert))] = HUGE
+    if mk == 'other':
+        for j, i in enumerate(layout):
+            if i not in IDS: flows[j] = 0.0
+    mat['flows'] = flows
+    case['material'] = mat
+    return case
+
+def gen_conversion_case(rng):
+    """Reaction.conversion(material) for single reactions; _conversion on a sparse vector for sets and systems"""
+    kind = rng.choice(['single', 'single', 'parallel', 'series', 'system'])
+    basis = rng.choice(['mol', 'mol', 'wt'])
+    phases = rng.choice([[], [], ['g', 'l']])
+    case = {'phases': phases, 'kind': kind, 'entry': 'conversion'}
+    def rx(): return gen_rxn(rng, phases, basis)
+    if kind == 'single': case['rxns'] = [rx()]
+    elif kind in ('parallel', 'series'): case['rxns'] = [rx() for _ in range(rng.randint(1, 3))]
+    else:
+        parts, rxns = [], []
+        for _ in range(rng.randint(1, 3)):
+            k = rng.choice(['single', 'parallel', 'series']); n = 1 if k == 'single' else rng.randint(1, 2)
+            parts.append([k, list(range(len(rxns), len(rxns) + n))]); rxns += [rx() for _ in range(n)]
+        case['rxns'] = rxns; case['parts'] = parts
+        singles = [i for i, p_ in enumerate(parts) if p_[0] == 'single']
+        if singles and rng.random() < 0.25:
+            case['post_rebase'] = [rng.choice(singles), 'wt' if basis == 'mol' else 'mol']
+    P = max(1, len(phases))
+    mk = rng.choice(['stream', 'stream', 'numpy', 'sparse'] + ([] if phases else ['massview'])) if kind == 'single' else 'sparse'
+    case['material'] = {'kind': mk, 'flows': gen_feed(rng, case, P * N, rng.random() < 0.7)}
+    return case
+
+def gen_tree(rng, depth, mkrx, rxns):
+    """nested structure: ['set', kind, [indices]] or ['sys', [children]]"""
+    if depth == 0 or rng.random() < 0.45:
+        k = rng.choice(['single', 'single', 'parallel', 'series']); n = 1 if k == 'single' else rng.randint(1, 2)
+        idx = list(range(len(rxns), len(rxns) + n)); rxns += [mkrx() for _ in range(n)]
+        return ['set', k, idx]
+    return ['sys', [gen_tree(rng, depth - 1, mkrx, rxns) for _ in range(rng.randint(1, 3))]]
+
+def tree_parts(t):
+    if t[0] == 'set': return [[t[1], t[2]]]
+    return [p_ for c in t[1] for p_ in tree_parts(c)]
+
+def tree_single_paths(t, path=()):
+    if t[0] == 'set': return [list(path)] if t[1] == 'single' else []
+    return [q_ for i, c in enumerate(t[1]) for q_ in tree_single_paths(c, path + (i,))]
+
+def gen_nested_case(rng):
+    """ReactionSystem objects nested inside ReactionSystem objects (depth up to 3)"""
+    phases = rng.choice([[], [], ['g', 'l']])
+    basis = rng.choice(['mol', 'mol', 'wt'])
+    rxns = []
+    tree = ['sys', [gen_tree(rng, 2, lambda: gen_rxn(rng, phases, basis), rxns) for _ in range(rng.randint(1, 3))]]
+    if not any(c[0] == 'sys' for c in tree[1]):
+        tree[1].append(['sys', [gen_tree(rng, 1, lambda: gen_rxn(rng, phases, basis), rxns)]])
+    case = {'phases': phases, 'kind': 'system', 'rxns': rxns, 'tree': tree, 'parts': tree_parts(tree)}
+    paths = tree_single_paths(tree)
+    if paths and rng.random() < 0.3:
+        path = rng.choice(paths)
+        # index of that part among the flattened parts
+        def count(t, pth):
+            if not pth: return 0
+            return sum(len(tree_parts(c)) for c in t[1][:pth[0]]) + count(t[1][pth[0]], pth[1:])
+        case['post_rebase'] = [count(tree, path), 'wt' if basis == 'mol' else 'mol']
+        case['post_rebase_path'] = path
+    P = max(1, len(phases))
+    case['material'] = {'kind': rng.choice(['stream', 'stream', 'numpy', 'sparse']),
+                        'flows': gen_feed(rng, case, P * N, rng.random() < 0.8)}
+    return case
+
+def other_exc_case(which, basis='mol', multi=False):
+    """a stream of another package on which the call raises: infeasible (B), product the package lacks (C), stream
+    chemical the reaction's package lacks (D)"""
+    ph = ['g', 'l'] if multi else []
+    t = (lambda p_, i, c: [p_ if multi else None, i, c])
+    terms = [t('g', 'Ca', -1.0), t('g', 'Cc', -2.0), t('g', 'Cd', 1.0), t('l', 'Ce', 2.0)]
+    rx = {'terms': terms, 'form': 'str', 'omit1': True, 'reactant': 'Ca', 'X': 1.0, 'basis': 'mol',
+          'rebase': 'wt' if basis == 'wt' else None, 'balanced': True}
+    pkg = {'infeasible': 'B', 'bwd': 'C', 'fwd': 'D'}[which]
+    ids = PKG[pkg]; f = [0.0] * len(ids)
+    if which == 'infeasible': f[ids.index('Ca')] = 4.0; f[ids.index('Cc')] = 2.0; f[ids.index('Cf')] = 3.0
+    elif which == 'bwd': f = [4.0, 16.0, 1.0]
+    else: f = [4.0, 1.0, 16.0, 2.0, 1.0, 0.0, 0.0, 0.0, 3.0]
+    flows = f + ([0.0] * (len(ids) - 1) + [0.5] if multi else [])
+    return {'phases': ph, 'kind': 'single', 'rxns': [rx], 'material': {'kind': 'other', 'pkg': pkg, 'flows': flows}}
+
+WIT_FORCE = {'phases': [], 'kind': 'single', 'entry': 'force',
+             'rxns': [{'terms': [[None, 'Cc', -1.0], [None, 'Cf', -2.0], [None, 'Ce', 2.0]], 'form': 'str', 'omit1': True,
+                       'reactant': 'Cc', 'X': 1.0, 'basis': 'mol', 'rebase': None, 'balanced': True}],
+             'material': {'kind': 'stream', 'flows': [HUGE, 1.0, 1.0, 1.0, 1.0, 2.0 - 1.0 / 1024, 1.0, 1.0]}}
+
+CORPUS = [WIT_FORCE] + [other_exc_case(w, b, m) for w in ('infeasible', 'bwd', 'fwd') for b in ('mol', 'wt') for m in (False, True)] + [HIST, HIST_SERIES, MIXED, MIXED_WT, window_case(50), window_case(41), window_case(40), window_case(39), window_case(30), window_case(41, two=True),
           window_case(42, two=True), window_case(45, basis='wt'), window_case(41, basis='wt'),
           WIT_MULTI, SPARSE2, OTHER_MULTI]
-WITNESSES = [{'key': 'C05:phaseless-reaction-on-multistream', 'case': WIT_MULTI}]
+WITNESSES = [{'key': 'C05:phaseless-reaction-on-multistream', 'case': WIT_MULTI},
+             {'key': 'C05:force-negligible-mask', 'case': WIT_FORCE}]
 
 def gen_cases(rng, tier):
     n = 330 if tier == 'quick' else 6000
     return ([gen_case(rng) for _ in range(n)] + [gen_cab_case(rng) for _ in range(n // 11)]
-            + [gen_lump_case(rng) for _ in range(n // 11)] + [gen_setcopy_case(rng) for _ in range(n // 22)])
+            + [gen_lump_case(rng) for _ in range(n // 11)] + [gen_setcopy_case(rng) for _ in range(n // 22)]
+            + [gen_force_case(rng) for _ in range(n // 8)] + [gen_conversion_case(rng) for _ in range(n // 11)]
+            + [gen_nested_case(rng) for _ in range(n // 8)])
 
 # ------------------------------------------------------------------ implementation side
 def errname(ex):
@@ -480,9 +622,10 @@ def fsolve(A, b):
             if i != c and M[i][c] != 0: M[i] = [x - M[i][c] * y for x, y in zip(M[i], M[c])]
     return [M[i][n] for i in range(n)]
 
-def cab_solution(r, constants):
+def cab_solution(r, constants, info=None):
     """What numpy.linalg returns inside Reaction.correct_atomic_balance, computed exactly: the molar coefficients per
     chemical after the solve (None when the method raises), and whether the system was consistent"""
+    if info is None: info = {}
     st = [F(float(x)) for x in np.asarray(r._stoichiometry.to_array(), float).reshape(-1)]
     P = max(1, len(r._phases))
     if r._basis == 'wt': st = [x / MW[k % N] for k, x in enumerate(st)]
@@ -494,6 +637,7 @@ def cab_solution(r, constants):
     A = [[F(ATOMS[j][a]) for j in unknown] for a in rows]
     b = [-sum(F(ATOMS[c][a]) * by_mol[c] for c in const) for a in rows]
     M, K = len(rows), len(unknown)
+    info['unknown'] = unknown
     if K == 0 or M == 0: return 'skip', False
     if M != K:
         if K > frank(A): return None, False
@@ -505,6 +649,7 @@ def cab_solution(r, constants):
     if x is None: return None, False
     consistent = all(sum(A[i][p] * x[p] for p in range(K)) == b[i] for i in range(M))
     for j, v in zip(unknown, x): by_mol[j] = v
+    info['x'] = list(x)
     return by_mol, consistent
 
 def apply_history(case, sets, log):
@@ -572,13 +717,26 @@ def apply_history(case, sets, log):
                 part = sorted({k % N for k, x in enumerate(np.asarray(d._stoichiometry.to_array(), float).reshape(-1)) if x})
                 consts = None if op[2] is None or not part else sorted({IDS[part[c % len(part)]] for c in op[2]})
                 if consts is not None and len(consts) >= len(part): consts = consts[:-1] or None
-                sol, consistent = cab_solution(d, consts)
+                info = {}
+                sol, consistent = cab_solution(d, consts, info)
                 if sol == 'skip' or (sol is not None and sol[flat_ridx(d, 0) % N] == 0):
                     log['ops'].append(['copy', j, None]); derived.append(d.copy()); balanced.append(balanced[j])
                 else:
-                    log['ops'].append(['cab', j, None if sol is None else [fr_json(x) for x in sol]])
+                    # the arguments numpy.linalg actually receives are recorded (the solve itself is the oracle; its answer
+                    # handed to the model is the exact rational solution of the exact system)
+                    rec = ['cab', j, None if consts is None else [IDS.index(c) for c in consts], [], [],
+                           None if sol is None else [fr_json(x) for x in info['x']]]
+                    log['ops'].append(rec)
                     balanced[j] = bool(consistent)
-                    d.correct_atomic_balance(consts)
+                    o_solve, o_lstsq = np.linalg.solve, np.linalg.lstsq
+                    def note(A_, b_):
+                        rec[3] = [[fr_json(frac(v)) for v in row] for row in np.asarray(A_, float).tolist()]
+                        rec[4] = [fr_json(frac(v)) for v in np.asarray(b_, float).reshape(-1)]
+                    def w_solve(A_, b_, *a, **k): note(A_, b_); return o_solve(A_, b_, *a, **k)
+                    def w_lstsq(A_, b_, *a, **k): note(A_, b_); return o_lstsq(A_, b_, *a, **k)
+                    np.linalg.solve, np.linalg.lstsq = w_solve, w_lstsq
+                    try: d.correct_atomic_balance(consts)
+                    finally: np.linalg.solve, np.linalg.lstsq = o_solve, o_lstsq
             elif name == 'setcopy':
                 gs = [(obj, idx) for obj, idx in sets if not isinstance(obj, env()['tmo'].Reaction)]
                 if not gs:
@@ -611,6 +769,19 @@ def build_obj(case, log=None):
     elif k in ('parallel', 'series'):
         obj = tmo.ParallelReaction(rs) if k == 'parallel' else tmo.SeriesReaction(rs)
         sets = [(obj, list(range(len(rs))))]
+    elif case.get('tree'):
+        leaves = {}
+        def build(t, path):
+            if t[0] == 'set':
+                sub = [rs[i] for i in t[2]]
+                o_ = sub[0] if t[1] == 'single' else (tmo.ParallelReaction(sub) if t[1] == 'parallel' else tmo.SeriesReaction(sub))
+                leaves[tuple(path)] = o_
+                return o_
+            return tmo.ReactionSystem(*[build(c, path + [i]) for i, c in enumerate(t[1])])
+        obj = build(case['tree'], [])
+        sets = []
+        if case.get('post_rebase_path') is not None:
+            leaves[tuple(case['post_rebase_path'])].basis = case['post_rebase'][1]
     else:
         parts, sets = [], []
         for pk, idx in case['parts']:
@@ -685,13 +856,27 @@ def run_impl(case):
         return out
     out['hist'] = {k: v for k, v in log.items() if k != 'derived_objs'}
     mat, read = make_material(case)
+    entry = case.get('entry', 'call')
     try:
-        ret = obj(mat)
+        if entry == 'force':
+            ret = obj.force_reaction(mat)
+        elif entry == 'conversion':
+            ret = None
+            if case['kind'] == 'single': cv = obj.conversion(mat)
+            else: cv = obj._conversion(mat)
+            out['conv'] = [fr_json(frac(x)) for x in np.asarray(cv.to_array(), float).reshape(-1)]
+        else:
+            ret = obj(mat)
         assert ret is None
     except Exception as ex:
         out['err'] = errname(ex); out['err_cls'] = type(ex).__name__
     if not (out['err'] and case['material']['kind'] == 'other'):
         out['data'] = [fr_json(frac(x)) for x in read()]
+    if case['material']['kind'] == 'other' and entry == 'call':
+        # everything the stream holds afterwards, exception or not
+        im = mat._imol
+        out['full'] = [fr_json(frac(x)) for x in np.asarray(im.data.to_array(), float).reshape(-1)]
+        out['lay'] = im._chemicals is env()['thermo']['A'].chemicals
     return out
 
 # ------------------------------------------------------------------ model side
@@ -779,7 +964,11 @@ def chop(o):
     if n == 'backwards': return f'(HBackwards {cnat(o[1])} {copt(o[2], cnat)} {copt(o[3], q)})'
     if n == 'iadd': return f'(HIAdd {cnat(o[1])} {cnat(o[2])})'
     if n == 'isub': return f'(HISub {cnat(o[1])} {cnat(o[2])})'
-    if n == 'cab': return f'(HCab {cnat(o[1])} {copt(None if o[2] is None else qlist([F(x) for x in o[2]]))})'
+    if n == 'cab':
+        fl = lambda v: qlist([F(x) for x in v])
+        formula = clist([qlist([F(float(x)) for x in row]) for row in env()['formula'].tolist()])
+        return (f'(HCab {cnat(o[1])} {cnat(N)} {formula} {copt(None if o[2] is None else clist(o[2], cnat))} '
+                f'{clist([fl(r) for r in o[3]])} {fl(o[4])} {copt(None if o[5] is None else fl(o[5]))})')
     if n == 'setcopy': return f'(HSetCopy {cnat(o[1])} {cnat(o[2])} {cb(o[3])})'
     raise ValueError(n)
 
@@ -791,7 +980,57 @@ def cobj_final(case):
     tbl = [(p * nB + ids.index(i)) if i in ids else None for p in range(P) for i in IDS]
     return f'(retarget_obj {cnat(P * nB)} {clist(tbl, lambda x: copt(x, cnat))} {cobj(case)})'
 
+def ctree(case, t):
+    rs = [crxn(case, s_) for s_ in case['rxns']]
+    def go(t):
+        if t[0] == 'set': return f'(mk_nset (mk_set {KIND[t[1]]} {clist([rs[i] for i in t[2]])}))'
+        return f'(mk_nsys {clist([go(c) for c in t[1]])})'
+    term = go(t)
+    if case.get('post_rebase_path') is not None:
+        term = (f'(do t_ <- {term}; nrebase {mws_term(case)} t_ {clist(case["post_rebase_path"], cnat)} '
+                f'{cbool(case["post_rebase"][1] == "wt")})')
+    return term
+
 def coq_case(case, out):
+    d = qlist([F(x) for x in out['data']])
+    other = cbool(case["material"]["kind"] == "other")
+    entry = case.get('entry', 'call')
+    if case.get('tree'):
+        m = case['material']; v = qlist(m['flows']); mws = mws_term(case)
+        if m['kind'] == 'stream': run = f'(fun t_ => ncall_stream {mws} t_ {v})'
+        elif m['kind'] == 'numpy':
+            run = f'(fun t_ => let (e_, v_) := nprocess t_ {v} in match e_ with None => (None, v_) | Some x_ => (Some x_, {v}) end)'
+        else: run = f'(fun t_ => nprocess t_ {v})'
+        return f'(ncase_eqb {ctree(case, case["tree"])} {run} {cerr(out["ctor_err"])} {cerr(out["err"])} {d})'
+    if entry == 'force':
+        return (f'(case_eqb {other} {cobj(case)} (fun o => force_call {call_mws_term(case)} o {cmat(case)}) '
+                f'{cerr(out["ctor_err"])} {cerr(out["err"])} {d})')
+    if entry == 'conversion':
+        cv = qlist([F(x) for x in out.get('conv', [])])
+        return (f'(match {cobj(case)} with Err x_ => oerr_eqb (Some x_) {cerr(out["ctor_err"])} '
+                f'| Ok o_ => oerr_eqb None {cerr(out["ctor_err"])} && '
+                f'conv_eqb (conversion_call {call_mws_term(case)} o_ {cmat(case)}) {cerr(out["err"])} {cv} {d} end)')
+    if case['material']['kind'] == 'other' and 'full' in out:
+        m = case['material']; P = max(1, len(case['phases']))
+        fwd, bwd = pkg_tables(m['pkg'], P)
+        full = (f'(match {cobj(case)} with Err _ => true | Ok o_ => full_eqb (call_other_full {call_mws_term(case)} o_ {cnat(P * N)} '
+                f'{clist(fwd, lambda x: copt(x, cnat))} {clist(bwd, lambda x: copt(x, cnat))} {qlist(m["flows"])}) '
+                f'{cerr(out["err"])} {qlist([F(x) for x in out["full"]])} {cbool(out["lay"])} end)')
+        return f'({coq_case_main(case, out)} && {full})'
+    return coq_case_main(case, out)
+
+def cmat(case):
+    m = case['material']; kind = m['kind']; P = max(1, len(case['phases'])); v = qlist(m['flows'])
+    if kind == 'stream': return f'(MStream {v})'
+    if kind == 'other':
+        fwd, bwd = pkg_tables(m['pkg'], P)
+        return f'(MOther {cnat(P * N)} {clist(fwd, lambda x: copt(x, cnat))} {clist(bwd, lambda x: copt(x, cnat))} {v})'
+    if kind == 'numpy': return f'(MNumpy {v})'
+    if kind == 'sparse': return f'(MSparse {v})'
+    if kind == 'massview': return f'(MMassView {v})'
+    raise ValueError(kind)
+
+def coq_case_main(case, out):
     d = qlist([F(x) for x in out['data']])
     other = cbool(case["material"]["kind"] == "other")
     if case.get('history'):
@@ -950,10 +1189,104 @@ def oracle_derived(case):
                 return f'derived-basis: reaction{how}: {basis} basis returned normally, its {other} version raised {type(ex).__name__}'
     return None
 
+def _exact_after(case, rs, kind, basis):
+    """exact flows the object leaves (no clean-up), on the quantity it acts on, plus that quantity before"""
+    m = case['material']
+    before = [F(x) for x in m['flows']]
+    pkg = m.get('pkg') if kind == 'other' else None
+    P = max(1, len(case['phases']))
+    if pkg:
+        ids = PKG[pkg]; molA = [F(0)] * (P * N)
+        for p_ in range(P):
+            for j, i in enumerate(ids):
+                if i in IDS: molA[p_ * N + IDS.index(i)] = before[p_ * len(ids) + j]
+                elif before[p_ * len(ids) + j]: return None, None
+    else: molA = before
+    if kind in ('numpy', 'sparse') and basis == 'wt':
+        as_mol = [x / MW[k % N] for k, x in enumerate(molA)]
+        return [x * MW[k % N] for k, x in enumerate(apply_ref(case, rs, as_mol))], molA
+    if kind == 'massview' and basis == 'mol':
+        mass = [x * MW[k % N] for k, x in enumerate(molA)]
+        return [x / MW[k % N] for k, x in enumerate(apply_ref(case, rs, mass))], molA
+    return apply_ref(case, rs, molA), molA
+
+def oracle_force(case):
+    """force_reaction: X x feed of the reactant is consumed, the others follow the coefficients (negative results are kept,
+    or set to zero when negligible against the total flow), so atoms and mass are conserved"""
+    m = case['material']; kind = m['kind']
+    rs = reference(case)
+    if rs is None: return None
+    basis = case['rxns'][0]['rebase'] or case['rxns'][0]['basis']
+    try: obj = build_obj(case, {})
+    except Exception as ex: return f'construct: well-formed reaction rejected with {type(ex).__name__}: {ex}'
+    expect, molA = _exact_after(case, rs, kind, basis)
+    if expect is None: return None
+    mat, read = make_material(case)
+    try: obj.force_reaction(mat)
+    except Exception as ex:
+        if kind == 'other' and type(ex).__name__ in ('UndefinedChemicalAlias', 'UndefinedChemical'): return None
+        return f'force: well-formed force_reaction raised {type(ex).__name__}: {ex}'
+    got = [float(x) for x in read()]
+    if kind == 'other':
+        ids = PKG[m['pkg']]; gotA = [0.0] * N
+        for j, i in enumerate(ids):
+            if i in IDS: gotA[IDS.index(i)] = got[j]
+        got = gotA
+    on_mass = (kind in ('stream', 'other') and basis == 'wt') or kind == 'massview'
+    total = sum(abs(float(x)) * (MW[k % N] if on_mass else 1) for k, x in enumerate(expect))
+    bad = []; negligible = False
+    for k, (g, x) in enumerate(zip(got, expect)):
+        x = float(x)
+        neg_small = x < 0 and total > 0 and x * (MW[k % N] if on_mass else 1) / total > -1e-15
+        negligible = negligible or neg_small
+        if abs(g - x) <= 1e-9 * max(1, abs(g), abs(x)) or (neg_small and g == 0): continue
+        bad.append(k)
+    if bad:
+        k = bad[0]
+        head = 'force-negligible-mask' if negligible else 'force'
+        return (f'{head}: force_reaction left {got[k]} of chemical {IDS[k % N]} where X x feed x coefficients gives {float(expect[k])} '
+                f'(total mass {sum(float(x) * MW[j % N] for j, x in enumerate(molA))} -> {sum(g * MW[j % N] for j, g in enumerate(got))} when flows are molar); '
+                f'flows {got}')
+    return None
+
+def oracle_conversion(case):
+    """conversion(material) returns X x feed x coefficients (the change) and leaves the material alone"""
+    m = case['material']; kind = m['kind']
+    rs = reference(case)
+    if rs is None: return None
+    if case['kind'] != 'single' and len({(s_['rebase'] or s_['basis']) for s_ in case['rxns']}) > 1: return None
+    basis = case['rxns'][0]['rebase'] or case['rxns'][0]['basis']
+    try: obj = build_obj(case, {})
+    except Exception as ex: return f'construct: well-formed reaction rejected with {type(ex).__name__}: {ex}'
+    mat, read = make_material(case)
+    try: cv = obj.conversion(mat) if case['kind'] == 'single' else obj._conversion(mat)
+    except Exception as ex:
+        if case.get('post_rebase') and type(ex).__name__ == 'RuntimeError': return None
+        return f'conversion: well-formed call raised {type(ex).__name__}: {ex}'
+    if case.get('post_rebase'): return None
+    after = [float(x) for x in read()]
+    if after != [float(x) for x in m['flows']]: return f'conversion: the material changed: {after}'
+    molA = [F(x) for x in m['flows']]
+    on_mass = (kind == 'stream' and basis == 'wt') or kind == 'massview'
+    q0 = [x * MW[k % N] for k, x in enumerate(molA)] if on_mass else molA
+    if (kind in ('numpy', 'sparse') and basis == 'wt') or (on_mass and basis == 'wt'):
+        as_mol = [x / MW[k % N] for k, x in enumerate(q0)]
+        q1 = [x * MW[k % N] for k, x in enumerate(apply_ref(case, rs, as_mol))]
+    else:
+        q1 = apply_ref(case, rs, q0)
+    want = [float(a - b) for a, b in zip(q1, q0)]
+    got = [float(x) for x in np.asarray(cv.to_array(), float).reshape(-1)]
+    scale = max([1.0] + [abs(float(x)) for x in q0])
+    if len(got) != len(want) or any(abs(g - w_) > 1e-9 * scale for g, w_ in zip(got, want)):
+        return f'conversion: returned {got}, X x feed x coefficients is {want}'
+    return None
+
 def oracle(case):
     e = env()
     m = case['material']; kind = m['kind']; ph = case['phases']; P = max(1, len(ph))
     if not wellformed(case): return None
+    if case.get('entry') == 'force': return oracle_force(case)
+    if case.get('entry') == 'conversion': return oracle_conversion(case)
     if case.get('use_derived') is not None and case.get('history'):
         probe = {}
         try: build_obj(case, probe)
